@@ -166,7 +166,7 @@ fn c03_trace_env_and_func() {
 }
 }
 
-// @harness id=c03_trace_object props=C03 tier=thorough cap=5400 mem=40
+// @harness id=c03_trace_object props=C03 tier=attempt cap=5400 mem=40
 // @desc GcTrace of ObjectData / ObjectLayer / ObjectField / ObjectFieldData on a 2-layer object: each layer's base environment and cached environment, and for each of two fields its own base environment and its cached thunk, are visited exactly once (10 distinct handles); Removed markers hold none
 // @bound 2 layers, 2 Normal fields in the self layer, 1 Normal field + 1 Removed marker in the super layer
 // @funcs <ObjectData as GcTrace>::trace, <ObjectLayer as GcTrace>::trace, <ObjectField as GcTrace>::trace, <ObjectFieldData as GcTrace>::trace
